@@ -35,6 +35,18 @@ CLAIMS = {
          "forms of + - * / and neg equal the canonical form, x*=y is x*y, x/=y is x/y, scalar binary forms equal their compound forms, inv = recip, mul_add x a b = x*a+b, iterator sum/product are "
          "left folds from zero/one, From<F>, zero, one, the sixteen FloatConst constants and every FromPrimitive constructor are from_re of the inner constant and from_re has zero/absent derivative "
          "parts. Over the reals, for every type and part: x+=y, x-=y equal x+y, x-y, and x o f equals x o lift f for + - * / (f <> 0). The implementation is run on all forms with identical operands."),
+ 'C09': ("Coq proof: powi/powf coefficients of the regenerated code are the generalized binomial tower (Coquelicot), every type's result = Faa di Bruno of it for every exponent and branch; powd = exp(n ln x) for every instance; bit-exact correspondence",
+         "Theorems (Props/C09.v, 31): for every i32 exponent n (range premise -2^31+3 <= n) and every non-zero base, the coefficients the generated third-order powi computes are a Coquelicot "
+         "derivative tower of x^n (branches 0, 1, 2 and the general one); for every real n other than 0, 1 and not within epsilon of 2, and every positive base, likewise for powf with Rpower; n = 2 gives the "
+         "tower of x^2; for each of the eight types, every exponent and every branch the result's parts are Faa di Bruno of that tower with the operand's parts; powd x n = exp(ln x * n) for an arbitrary "
+         "scalar instance (so C01/C02 give its derivatives). The i32 products of the original code are shown to wrap at n = 1292 (fixed in /repo). Exponents up to 2^30, neighbours of 0/1/2 and dual exponents "
+         "are run on the implementation against 60-digit references. Partial: agreement of the three power functions is tested, not stated as a theorem; rounding bounds are tested."),
+ 'C10': ("Coq proof over R where meaningful (powi tower at every base incl. 0, atan2 gradient formula on both sides of the diagonal, series jets at 0) + execution of the regenerated model on binary64 at the enumerated special points, bit-exact against the implementation",
+         "Theorems (Props/C10.v, 12): for n >= 3 the generated powi coefficients are the derivative tower of x^n at EVERY base, zero included; for each of the eight types atan2(y, x) returns Ratan2 in the real part and "
+         "(x dy - y dx)/(x^2+y^2) in every first-order part whenever (x, y) <> (0, 0) -- in particular on and next to both axes, through both branches of the repaired code; below the switch the spherical Bessel "
+         "jets at 0 are (1,0,-1/3,0), (0,1/3,0,-1/5), (0,0,2/15,0); the exp_m1 / ln_1p towers hold at 0. Finiteness (no NaN from 0*inf or 0/0) cannot be expressed over the reals, where 1/0 and ln 0 are "
+         "totalised: it is decided by executing the generated model on primitive binary64 floats inside Coq at every enumerated special point and its float neighbours, bit for bit against the implementation, "
+         "and by an oracle requiring every part finite and equal to the mathematical jet (this is enumeration of a finite set of points with random derivative parts, not a theorem about all parts)."),
 }
 props = [json.loads(l) for l in open('/verif/properties.jsonl')]
 checks = []
